@@ -125,6 +125,7 @@ class ASTRewriter(ast.NodeTransformer):
         self.env = Environment() if env is None else env
         self.ret = None
         self._uniqd = 1
+        self._in_function = False
 
     @property
     def uniqd(self):
@@ -317,6 +318,12 @@ class ASTRewriter(ast.NodeTransformer):
         return node
 
     def visit_FunctionDef(self, node):
+        if self._in_function:
+            # A nested definition is a scope of its own: its arguments and locals must
+            # not replace the types and constants recorded for the enclosing function
+            return ASTRewriter().visit(node)
+        self._in_function = True
+
         for x in node.args.args:
             self.env.set_type(x.arg, x.annotation)
 
